@@ -127,6 +127,7 @@ def gen_random(scn, rng, depth):
     alive = True
     days = 0
     deferred = False
+    detached = set()
     for _ in range(depth):
         r = rng.random()
         free = [a for a in scn['apps'] if a not in apps]
@@ -178,8 +179,13 @@ def gen_random(scn, rng, depth):
             s = rng.choice(sorted(exists - up))
             up.add(s)
             hist.append(('NodeUp', [s, rng.randrange(len(scn['sprofiles'])) + 1]))
-        elif r < 0.69 and exists:
+        elif r < 0.675 and exists:
             hist.append(('SetPartition', [rng.choice(sorted(exists)), rng.choice(['_default', 'pB'])]))
+        elif r < 0.69:
+            # an administrator takes a rack out of the cell / puts it back
+            rack = rng.choice(sorted(scn['racks']))
+            hist.append(('AttachRack' if rack in detached else 'DetachRack', [rack]))
+            detached ^= {rack}
         elif r < 0.72 and exists:
             s = rng.choice(sorted(exists))
             st = rng.choice(['frozen', 'up', 'down'])
